@@ -50,6 +50,7 @@ type Engine struct {
 	symModels  map[string]modelFn // SMT models of string functions for genuinely symbolic arguments
 	noopPrefix []string
 	initStores map[*ssa.Global]bool
+	waitFns    map[*ssa.Function]bool
 
 	fnInfos  sync.Map // *ssa.Function -> *funcInfo
 	mu       sync.Mutex
@@ -95,7 +96,7 @@ func Load(cfg Config) (*Engine, error) {
 	e := &Engine{Prog: prog, Pkgs: pkgs, RunInit: map[string]bool{}, KnownIDs: map[string]bool{},
 		Solver: "z3", TimeoutMs: 180000, Workers: 16,
 		Intercepts: map[string]string{}, models: map[string]modelFn{}, symModels: map[string]modelFn{}, execFns: map[*ssa.Function]int{}, modelFns: map[string]int{},
-		initStores: map[*ssa.Global]bool{}}
+		initStores: map[*ssa.Global]bool{}, waitFns: map[*ssa.Function]bool{}}
 	registerModels(e)
 	// globals with an initialiser
 	for _, pkg := range prog.AllPackages() {
